@@ -46,6 +46,10 @@ netget(const unsigned int terminate)
 			break;
 		case ECONNRESET:
 		case ETIMEDOUT:
+			/* read() itself may fail with these (e.g. TCP reset), in which
+			 * case net_read() returns here even if terminate is set */
+			if (terminate)
+				dieerror(errno);
 			return -err_network(errno);
 		default:
 			if (terminate) {
